@@ -12,7 +12,7 @@ import (
 // idle.Manager run from its current yield point (an atomic access or a lock acquisition in the
 // instrumented copy of idle.go) to the next one. Threads: r<n> = an RPC (OnCallBegin … OnCallEnd,
 // repeated), t<n> = a timer callback (handleIdleTimeout), c<n> = Connect (ExitIdleMode), k = Close.
-// Output: `<label the thread is parked at | done> cnt= act= idle= closed= en= ex= active=`.
+// Output: `<label the thread is parked at | done> cnt= act= idle= closed= en= ex= active= cb=`.
 
 type idleThread struct {
 	name    string
@@ -22,10 +22,29 @@ type idleThread struct {
 	phase   int // r-threads: 0 = next call is OnCallBegin, 1 = in call (next is OnCallEnd)
 }
 
-type idleCC struct{ enters, exits int }
+// idleCC is the fake ClientConn. Its callbacks are yield points too: a goroutine can be parked INSIDE
+// cc.ExitIdleMode()/cc.EnterIdleMode() ("the channel is leaving / entering idle mode") while others run.
+type idleCC struct {
+	enters, exits int
+	inCb          string // "x" / "e" while a goroutine is inside the exit / enter callback
+}
 
-func (c *idleCC) EnterIdleMode() { c.enters++ }
-func (c *idleCC) ExitIdleMode()  { c.exits++ }
+func (c *idleCC) EnterIdleMode() {
+	c.enters++
+	c.inCb = "e"
+	if h := idle.VerifHook; h != nil {
+		h("cc.EnterIdleMode")
+	}
+	c.inCb = ""
+}
+func (c *idleCC) ExitIdleMode() {
+	c.exits++
+	c.inCb = "x"
+	if h := idle.VerifHook; h != nil {
+		h("cc.ExitIdleMode")
+	}
+	c.inCb = ""
+}
 
 type idleSched struct {
 	m       *idle.Manager
@@ -97,7 +116,11 @@ func (s *idleSched) step(name string) string {
 			active++
 		}
 	}
-	return fmt.Sprintf("%s cnt=%d act=%d idle=%v closed=%d en=%d ex=%d active=%d", t.label, cnt, act, idl, closed, s.cc.enters, s.cc.exits, active)
+	cb := s.cc.inCb
+	if cb == "" {
+		cb = "-"
+	}
+	return fmt.Sprintf("%s cnt=%d act=%d idle=%v closed=%d en=%d ex=%d active=%d cb=%s", t.label, cnt, act, idl, closed, s.cc.enters, s.cc.exits, active, cb)
 }
 
 func init() {
